@@ -73,6 +73,9 @@ for d in sorted(glob.glob(os.path.join(HERE, 'seeded', 'C*-m*')), key=lambda p: 
         if c.get('detail'):
             det = c['detail'][0].strip()[:300]
     head = [l.strip('# ').strip() for l in notes.splitlines() if l.strip()][:1]
+    sfile = os.path.join(d, 'summary.txt')
+    if os.path.exists(sfile):      # the lead's one-line description (rounds >= 8: the sub-agents' notes start with a generic title)
+        head = [sid.replace('-', ' / ', 1) + ' - ' + open(sfile).read().strip()]
     hist_file = os.path.join(d, 'history.txt')
     missed_first = None
     if first_pass is not None:
@@ -95,7 +98,7 @@ for d in sorted(glob.glob(os.path.join(HERE, 'seeded', 'C*-m*')), key=lambda p: 
             'patch_applies_to_repo_head': first.get('patch_applies'),
             'demo_exit_without_patch': first.get('demo_without_patch_rc'),
             'demo_exit_with_patch': first.get('demo_with_patch_rc'),
-            'repo_tests_with_patch': first.get('repo_tests'),
+            'repo_tests_with_patch': first.get('repo_tests') or (first_pass or {}).get('repo_tests'),
             'how': 'harness/seedtest.py: scratch worktree of /repo HEAD, demo.py before/after git apply, repository test-suite '
                    '(query_render_test deselected: its 14 failures are pre-existing), then ./check <property> quick with VERIF_REPO=<worktree>',
         },
